@@ -107,7 +107,7 @@ def invsum(positions):
     return inv
 
 
-COLS = 'date, flag, payee, narration, account, position, price, entry'
+COLS = 'date, flag, payee, narration, account, position, price, entry, weight'
 
 
 def prop_clauses(sh, case):
@@ -171,6 +171,24 @@ def prop_clauses(sh, case):
         residual = interpolate.compute_residual(t.postings)
         if not residual.is_small(interpolate.infer_tolerances(t.postings, options)):
             fails.append(('unbalanced-transaction', f'FROM {clause}: {t.date} {t.narration!r} residual {residual}'))
+    # ... also when seen through the columns: `weight` is the balancing weight of the row's posting (the postings the
+    # clauses synthesize included, e.g. conversions booked at price zero), and the weights of a transaction cancel
+    from beancount.core import convert as bconvert
+    k = 0
+    prev = None
+    wsum = {}
+    for x in rows:
+        k = k + 1 if x[7] is prev else 0
+        prev = x[7]
+        if k < len(x[7].postings):
+            w = bconvert.get_weight(x[7].postings[k])
+            if x[8] != w:
+                fails.append(('weight-column', f'FROM {clause}: {x[0]} {x[4]} {x[5]} @ {x[6]}: weight column {x[8]!r}, balancing weight {w!r}'))
+                break
+        wsum.setdefault(id(x[7]), inventory.Inventory()).add_amount(x[8])
+    for t in txns.values():
+        if id(t) in wsum and not wsum[id(t)].is_small(interpolate.infer_tolerances(t.postings, options)):
+            fails.append(('weights-do-not-cancel', f'FROM {clause}: {t.date} {t.narration!r} sum of weight {wsum[id(t)]}'))
     # with CLOSE the conversions entry makes the whole result net to zero at cost (the difference sits on Equity)
     if case['close'] is not None:
         total = inventory.Inventory()
